@@ -87,6 +87,11 @@ type TwoChain struct {
 	Bridge uint64
 	Period time.Duration
 
+	// BankFaults, when set, makes a fraction of the relays of plain deposits run with an error or panic injected at the
+	// handler's mint / transfer (see L2Env.DeliverWithBankFault); FaultsFired counts them
+	BankFaults  *mon.Rand
+	FaultsFired int
+
 	PendingDeposits []L1DepositEvent    // emitted on L1, not yet relayed
 	Recorded        []L2WithdrawalEvent // recorded on L2, not yet committed in an output
 	AllWithdrawals  []L2WithdrawalEvent
@@ -123,7 +128,15 @@ func (tc *TwoChain) RelayNext() (sim.Result, bool) {
 		return sim.Result{}, false
 	}
 	d := tc.PendingDeposits[0]
-	res := tc.L2.L2.DeliverGas(500_000_000, tc.RelayMsg(tc.L2.Executors[0], d))
+	var res sim.Result
+	if tc.BankFaults != nil && len(d.Data) == 0 && d.Amount.IsPositive() && tc.BankFaults.Chance(12) {
+		var fault string
+		if res, fault = tc.L2.DeliverWithBankFault(tc.BankFaults, 500_000_000, tc.RelayMsg(tc.L2.Executors[0], d)); fault != "" {
+			tc.FaultsFired++
+		}
+	} else {
+		res = tc.L2.L2.DeliverGas(500_000_000, tc.RelayMsg(tc.L2.Executors[0], d))
+	}
 	if res.Class == sim.OK {
 		if r, ok := res.Resp().(*opchildtypes.MsgFinalizeTokenDepositResponse); ok && r.Result == opchildtypes.SUCCESS {
 			tc.PendingDeposits = tc.PendingDeposits[1:]
